@@ -63,10 +63,15 @@ func (f *frame) doCallVals(c *ssa.CallCommon, args []Val, st *State, pos token.P
 		fv := f.val(c.Value)
 		f.safety("nilcall", st, fmt.Sprintf("(not (= %s 0))", fv.T), pos, "call of nil function value")
 	}
-	f.beforeCall(key, st, pos)
+	f.beforeCall(key, args, st, pos)
 	con := g.W.db.Contracts[key]
 	if con != nil && !con.Inline {
-		return f.applyContract(con, key, args, rt, st, pos, ci)
+		res := f.applyContract(con, key, args, rt, st, pos, ci)
+		if f.callResults == nil {
+			f.callResults = map[string][]Val{}
+		}
+		f.callResults[key] = append(f.callResults[key], res)
+		return res
 	}
 	if fn != nil && g.W.inPkg(fn) && len(fn.Blocks) > 0 {
 		if f.depth < maxInlineDepth && !f.onStack(fn) {
@@ -86,7 +91,7 @@ func (f *frame) doCallVals(c *ssa.CallCommon, args []Val, st *State, pos token.P
 }
 
 // beforeCall: call-site assertions of the enclosing function's contract, keyed by callee.
-func (f *frame) beforeCall(key string, st *State, pos token.Pos) {
+func (f *frame) beforeCall(key string, args []Val, st *State, pos token.Pos) {
 	g := f.g
 	var con *Contract
 	if f.top {
@@ -104,6 +109,10 @@ func (f *frame) beforeCall(key string, st *State, pos token.Pos) {
 	env := &Env{g: g, vars: map[string]Val{}, heap: st.heap, old: f.entry}
 	f.bindParams(env)
 	env.lookup = f.localsAt(f.curBlock)
+	env.sset = f.sset
+	for i, a := range args {
+		env.vars[fmt.Sprintf("$%d", i)] = a
+	}
 	for i, cl := range con.Before[key] {
 		t, err := g.trBool(cl.E, env)
 		name := f.oblName(fmt.Sprintf("before:%s#%d:%s", shortName(key), f.beforeCtr[key], clauseLabel(cl, i)))
@@ -751,7 +760,9 @@ func (f *frame) builtin(c *ssa.CallCommon, name string, args []Val, st *State, p
 			return Val{T: fmt.Sprintf("(select %s %s)", g.arr(st.heap, "G!chan!cap", "Int"), v.T), Ty: tyInt}
 		}
 	case "append":
-		return f.appendOp(c, args, st, pos)
+		res := f.appendOp(c, args, st, pos)
+		f.ssetAppend(c, args, res)
+		return res
 	case "copy":
 		dst, src := args[0], args[1]
 		n := g.fresh("copyn")
